@@ -63,6 +63,27 @@ fn families() -> Vec<Family> {
             len_thorough: 9,
         },
         Family {
+            name: "i-binary-name-prefix-of-unary-and-constant(min, minus, minx)",
+            table: Table::new(vec![OpDesc::bin("min", 1, false), OpDesc::un("minus"), OpDesc::cst("minx", 41), OpDesc::bin_un("-", 0, false)]),
+            chars: vec!["m", "i", "n", "u", "s", "x", "1", " ", "(", ")"],
+            len_quick: 7,
+            len_thorough: 8,
+        },
+        Family {
+            name: "j-symbolic-binary-prefix-of-unary(+, ++, +-)",
+            table: Table::new(vec![OpDesc::bin("+", 1, true), OpDesc::un("++"), OpDesc::un("+-"), OpDesc::bin_un("-", 0, false)]),
+            chars: vec!["+", "-", "x", "1", " ", "("],
+            len_quick: 8,
+            len_thorough: 9,
+        },
+        Family {
+            name: "k-greek-binary-prefix-of-constant(μ, μο, μοι)",
+            table: Table::new(vec![OpDesc::bin("μ", 1, false), OpDesc::cst("μο", 42), OpDesc::un("μοι"), OpDesc::bin_un("-", 0, false)]),
+            chars: vec!["μ", "ο", "ι", "x", "1", " ", "("],
+            len_quick: 7,
+            len_thorough: 9,
+        },
+        Family {
             name: "h-greek(σ unary, π constant)",
             table: Table::new(vec![OpDesc::un("σ"), OpDesc::cst("π", 31), OpDesc::bin_un("+", 0, true), OpDesc::un("σσ")]),
             chars: vec!["π", "σ", "α", "Ω", "a", "2", " ", "+", "_"],
